@@ -81,7 +81,7 @@ PROPS = {
     'C11': dict(obligations=lambda: P('SqProps.C11') + SHAPE_RESETS,
                 slices=['session'], monitors=['c11'],
                 pending=['histories that contain earlier EVALS: independent up to the D9 finding (a stored lambda charges its creator VM); proved for histories of parse / list_names calls of any outcome, and for cached parsers via C17.cache_transparent']),
-    'C12': dict(obligations=lambda: P('SqProps.C12'),
+    'C12': dict(obligations=lambda: P('SqProps.C12') + P('SqProps.C12Assign'),
                 slices=['alias'], monitors=['c12'],
                 pending=['the aliasing STRUCTURE of the copy (two paths to one object stay two paths to one object: the memo is a function, copy_walk_invariant) is not stated as a theorem of its own; content (stored_copy_has_same_content: equal unfoldings at every depth) and independence (stored_copy_is_independent) are proved']),
     'C13': dict(obligations=lambda: P('SqProps.C13') + P('SqProps.C13All') + P('SqProps.C13Run') + TIE_FN,
